@@ -30,7 +30,7 @@ EVIDENCE = {
 
 def gen_script(W, method):
     s = {}
-    s["kind"] = W.choice(["list", "gen", "write", "file", "ufile", "write+file"])
+    s["kind"] = W.choice(["list", "gen", "write", "file", "ufile", "write+file", "write+list"])
     s["cl_name"] = W.choice(["Content-Length", "content-length", "Content-length", "CONTENT-LENGTH"], p0=0.6)
     s["recall"] = W.chance(0.08)
     s["status"] = W.choice(["200 OK", "204 No Content", "304 Not Modified", "201 Created"], p0=0.6)
@@ -38,7 +38,7 @@ def gen_script(W, method):
     s["sizes"] = [W.choice([9, 0, 1, 200, 2500, 9000]) for _ in range(n)]
     if method == "HEAD":
         s["sizes"] = [0 for _ in s["sizes"]][:2]
-        if s["kind"] in ("file", "ufile", "write+file"):
+        if s["kind"] in ("file", "ufile", "write+file", "write+list"):
             s["kind"] = "list"
         s["head_equiv"] = W.choice([0, 33, 4000])
     s["cl"] = W.choice(["exact", "none", "larger", "smaller"])
@@ -99,7 +99,7 @@ def make_script(i, s, method):
         hdrs.append(("content-type", "text/plain; charset=utf-8"))
     if s["extra_headers"] >= 2:
         hdrs += [("Set-Cookie", "a=1"), ("set-cookie", "b=2")]
-    if s["kind"] == "write+file" and not (len(chunks) >= 2 and chunks[0]):
+    if s["kind"] in ("write+file", "write+list") and not (len(chunks) >= 2 and chunks[0]):
         s = dict(s)
         s["kind"] = "write"
     script = {"status": s["status"], "headers": hdrs, "cl": cl, "chunks": chunks, "kind": s["kind"], "cl_name": s.get("cl_name", "Content-Length"),
@@ -184,6 +184,8 @@ def run_one(tapes, tier, scenario=None):
     def v(clause, p, msg, disc=None):
         if p["script"].get("kind") == "write+file":
             disc = "write_then_file_wrapper"
+        elif p["script"].get("kind") == "write+list":
+            disc = "write_then_list:" + (disc or clause)
         elif p["script"].get("recalled"):
             disc = "exc_info_recall:" + (disc or "body")
         res.v(clause, disc or cell(p), "request %d [%s] sizes=%r late=%s: %s" % (p["i"], cell(p), p["q"]["script"]["sizes"], p["script"].get("sr_late"), msg))
